@@ -31,7 +31,7 @@ pub fn make_monitor(prop: &str, n: usize, cap: usize, profile: Profile) -> Box<d
 fn profile_weights(prop: &str) -> [u32; 10] {
     match prop {
         "C01" => [10, 15, 8, 15, 15, 5, 12, 4, 14, 2],
-        "C02" => [8, 18, 15, 15, 6, 10, 8, 10, 8, 2],
+        "C02" => [8, 18, 15, 15, 6, 10, 8, 10, 0, 2], // primitives only: merge/clone/save+load/scripts are C11/C10/C08/C14's
         "C03" => [8, 6, 14, 10, 6, 4, 16, 10, 0, 26],
         "C04" => [0, 5, 5, 80, 5, 0, 5, 0, 0, 0],
         "C05" => [5, 5, 0, 30, 5, 5, 5, 0, 45, 0],
@@ -131,6 +131,8 @@ fn configure_gen(prop: &str, g: &mut Gen) {
             }
         }
         "C04" => g.allow_script = false,
+        // scripts are not among the calls C01 quantifies over, and their variable ids are only predicted
+        "C01" => g.allow_script = false,
         "C02" => {
             if g.rng.chance(1, 4) {
                 g.add_noncanon_labels();
